@@ -1,13 +1,18 @@
 #!/bin/bash
-# tools/seeded_run.sh <seeded-id> <property> [more properties...]: apply the seeded patch to /repo, run the checks, undo; record the outcome
+# tools/seeded_run.sh <seeded-id> <property> [more properties...]
+# Applies seeded/<id>/patch.diff to a scratch copy of /repo's working tree (outside /repo and /verif, removed afterwards), runs the change's demo and the
+# named checks against that copy (VERIF_REPO), and records the outcome in seeded/<id>/check_output.txt.  /repo itself is not touched, so several seeded
+# runs and ordinary checks can go on at the same time.  (Equivalent to: git -C /repo apply <patch>; run; git -C /repo checkout -- .)
 id=$1; shift
 cd /verif
-[ -n "$(git -C /repo status --porcelain)" ] && { echo "/repo not clean"; exit 2; }
-git -C /repo apply /verif/seeded/$id/patch.diff || exit 2
+scr=$(mktemp -d /tmp/seedrun_${id}_XXXX)
+trap 'rm -rf "$scr"' EXIT
+cp -r /repo/ghedesigner "$scr/" || exit 2
+find "$scr" -name __pycache__ -type d -prune -exec rm -rf {} + 2>/dev/null
+(cd "$scr" && patch -p1 -s < /verif/seeded/$id/patch.diff) || { echo "patch does not apply"; exit 2; }
 out=seeded/$id/check_output.txt; : > $out
-PYTHONPATH=/repo /venv/bin/python seeded/$id/demo.py >/dev/null 2>&1; echo "demo.py exit with change applied: $?" >> $out
-export VERIF_EVIDENCE_DIR=/verif/scratch/seeded_evidence
-for p in "$@"; do echo "--- ./vcheck $p --tier quick" >> $out; ./vcheck $p --tier quick 2>&1 | grep -E "^\[|VIOLATION|UNDECIDED|KNOWN|FAULT" >> $out; echo "exit=${PIPESTATUS[0]}" >> $out; done
-git -C /repo checkout -- .
-PYTHONPATH=/repo /venv/bin/python seeded/$id/demo.py >/dev/null 2>&1; echo "demo.py exit on the unchanged tree: $?" >> $out
+(cd "$scr" && PYTHONPATH="$scr" timeout 900 /venv/bin/python /verif/seeded/$id/demo.py >/dev/null 2>&1); echo "demo.py exit with change applied: $?" >> $out
+export VERIF_EVIDENCE_DIR=/verif/scratch/seeded_evidence/$id
+for p in "$@"; do echo "--- VERIF_REPO=<scratch copy with the change> ./vcheck $p --tier quick" >> $out; VERIF_REPO="$scr" ./vcheck $p --tier quick 2>&1 | grep -E "^\[|VIOLATION|UNDECIDED|KNOWN|FAULT|NO-VERDICT" | sed "s#$scr#<scratch>#g" >> $out; echo "exit=${PIPESTATUS[0]}" >> $out; done
+(cd /repo && PYTHONPATH=/repo timeout 900 /venv/bin/python /verif/seeded/$id/demo.py >/dev/null 2>&1); echo "demo.py exit on the unchanged tree: $?" >> $out
 cat $out
